@@ -78,6 +78,8 @@ class Check(object):
     return None
 
   def finish(self):
+    for n in getattr(self.repo, 'role_notes', [])[:30]:
+      self.info('variable identified by role: ' + n)
     # vacuity guard
     counts = {}
     for o in self.obligations:
